@@ -5,6 +5,7 @@
   `AssertionError`s / `KeyError`s of the Python code can fire.
 -/
 import DDProofs.SwapPop
+import DDProofs.SwapRef
 open Std
 
 namespace DD
@@ -114,12 +115,13 @@ theorem moveUp_spec (m0 : Mgr) (hI : Inv m0) (x : Nat) : ∀ (l : List Nat) (m :
     (∀ k, m0.tbl.node? k = none → m.tbl.node? k = none) →
     ∃ m', moveUp x (x + 1) (l.map (trip m0.tbl)) m = (.ok (), m') ∧
       Mid m0 m' x (fun k => pend k ∧ k ∉ l) ∧
-      (∀ k, m0.tbl.node? k = none → m'.tbl.node? k = none) := by
+      (∀ k, m0.tbl.node? k = none → m'.tbl.node? k = none) ∧
+      (∀ ext, RefExact m ext → RefExact m' ext) := by
   intro l
   induction l with
   | nil =>
     intro m pend hM _ _ _ hF
-    exact ⟨m, rfl, hM.congr (fun k => by simp), hF⟩
+    exact ⟨m, rfl, hM.congr (fun k => by simp), hF, fun _ h => h⟩
   | cons u rest ih =>
     intro m pend hM hnd hl hX hF
     rw [List.nodup_cons] at hnd
@@ -154,14 +156,17 @@ theorem moveUp_spec (m0 : Mgr) (hI : Inv m0) (x : Nat) : ∀ (l : List Nat) (m :
       rw [node?_insert]
       have : u ≠ k := by intro e; subst e; rw [hn] at hk; cases hk
       simp [this, hF k hk]
-    obtain ⟨m', hrun', hM', hF'⟩ := ih m1 (fun k => pend k ∧ k ≠ u) hM1 hnd.2 (by
+    have hR1 : ∀ ext, RefExact m ext → RefExact m1 ext := fun ext hr =>
+      hr.relabel hcur ⟨x, n.lo, n.hi⟩ rfl rfl (by rw [hm1]) (by rw [hm1])
+    obtain ⟨m', hrun', hM', hF', hR'⟩ := ih m1 (fun k => pend k ∧ k ≠ u) hM1 hnd.2 (by
         intro k hk
         obtain ⟨hp, hh⟩ := hl k (List.mem_cons_of_mem _ hk)
         exact ⟨⟨hp, fun e => hnd.1 (e ▸ hk)⟩, hh⟩) (by
         intro k nk hnk h1
         refine ⟨hX k nk hnk h1, ?_⟩
         intro e; subst e; rw [hn] at hnk; cases hnk; omega) hF1
-    refine ⟨m', ?_, hM'.congr (fun k => by simp only [List.mem_cons, not_or, and_assoc, ne_eq]), hF'⟩
+    refine ⟨m', ?_, hM'.congr (fun k => by simp only [List.mem_cons, not_or, and_assoc, ne_eq]), hF',
+      fun ext hr => hR' ext (hR1 ext hr)⟩
     simp only [List.map_cons]
     have ht : trip m0.tbl u = (u, n.lo, n.hi) := by simp [trip, hn]
     rw [ht]
@@ -181,13 +186,14 @@ theorem moveIndep_spec (m0 : Mgr) (hI : Inv m0) (x : Nat) (hx : x + 1 < m0.nvars
     ∃ done m', moveIndep x (x + 1) (l.map (trip m0.tbl)) m = (.ok done, m') ∧
       (∀ k, k ∈ done ↔ (k ∈ l ∧ ¬ IsDep m0.tbl x k)) ∧
       Mid m0 m' x (fun k => pend k ∧ ¬ (k ∈ l ∧ ¬ IsDep m0.tbl x k)) ∧
-      (∀ k, m0.tbl.node? k = none → m'.tbl.node? k = none) := by
+      (∀ k, m0.tbl.node? k = none → m'.tbl.node? k = none) ∧
+      (∀ ext, RefExact m ext → RefExact m' ext) := by
   have hW := hI.wf.toWF
   intro l
   induction l with
   | nil =>
     intro m pend hM _ _ _ hF
-    exact ⟨[], m, rfl, fun k => by simp, hM.congr (fun k => by simp), hF⟩
+    exact ⟨[], m, rfl, fun k => by simp, hM.congr (fun k => by simp), hF, fun _ h => h⟩
   | cons u rest ih =>
     intro m pend hM hnd hl hY hF
     rw [List.nodup_cons] at hnd
@@ -225,9 +231,9 @@ theorem moveIndep_spec (m0 : Mgr) (hI : Inv m0) (x : Nat) (hx : x + 1 < m0.nvars
         · simp [h]
         · simp [h]
       rw [if_pos hcond]
-      obtain ⟨done, m', hrun, hdone, hM', hF'⟩ := ih m pend hM hnd.2 hrest hY hF
+      obtain ⟨done, m', hrun, hdone, hM', hF', hR'⟩ := ih m pend hM hnd.2 hrest hY hF
       have hud : IsDep m0.tbl x u := ⟨n, hn, hlv, hdep⟩
-      refine ⟨done, m', hrun, ?_, hM'.congr ?_, hF'⟩
+      refine ⟨done, m', hrun, ?_, hM'.congr ?_, hF', hR'⟩
       · intro k
         rw [hdone]
         simp only [List.mem_cons]
@@ -281,14 +287,16 @@ theorem moveIndep_spec (m0 : Mgr) (hI : Inv m0) (x : Nat) (hx : x + 1 < m0.nvars
         rw [node?_insert]
         have : u ≠ k := by intro e; subst e; rw [hn] at hk; cases hk
         simp [this, hF k hk]
-      obtain ⟨done, m', hrun, hdone, hM', hF'⟩ := ih m1 (fun k => pend k ∧ k ≠ u) hM1 hnd.2 (by
+      have hR1 : ∀ ext, RefExact m ext → RefExact m1 ext := fun ext hr =>
+        hr.relabel hcur ⟨x + 1, n.lo, n.hi⟩ rfl rfl (by rw [hm1]) (by rw [hm1])
+      obtain ⟨done, m', hrun, hdone, hM', hF', hR'⟩ := ih m1 (fun k => pend k ∧ k ≠ u) hM1 hnd.2 (by
           intro k hk
           obtain ⟨hp, hh⟩ := hrest k hk
           exact ⟨⟨hp, fun e => hnd.1 (e ▸ hk)⟩, hh⟩) (fun k nk hnk h1 hp => hY k nk hnk h1 hp.1) hF1
       have hud : ¬ IsDep m0.tbl x u := by
         rintro ⟨n', hn', _, hd⟩
         rw [hn] at hn'; cases hn'; exact hdep hd
-      refine ⟨u :: done, m', ?_, ?_, hM'.congr ?_, hF'⟩
+      refine ⟨u :: done, m', ?_, ?_, hM'.congr ?_, hF', fun ext hr => hR' ext (hR1 ext hr)⟩
       · rw [M.bind_ok hrun1, M.bind_ok hrun]; rfl
       · intro k
         simp only [List.mem_cons, hdone]
